@@ -6,7 +6,7 @@ pid, n, caught, needs, ran = sys.argv[1:6]
 src = f"/tmp/seeded-out/{pid}/{n}"
 dst = f"/verif/seeded/{pid}-{n}"
 os.makedirs(dst, exist_ok=True)
-for f in ["patch.diff", "demo.diff", "notes.md", "confirm.log"]:
+for f in ["patch.diff", "patch.rebased.diff", "demo.diff", "notes.md", "confirm.log"]:
     if os.path.exists(os.path.join(src, f)):
         shutil.copy(os.path.join(src, f), os.path.join(dst, f))
 confirm = ""
